@@ -217,6 +217,11 @@ CHECKS['C03']['text'] = CHECKS['C03']['text'] + ' INDEX-DTYPE: the midpoint arra
 CHECKS['C03']['technique'] += '; syntax-tree lint for untyped index arrays'
 CHECKS['C01']['text'] = CHECKS['C01']['text'] + ' Borrowed from C03: MID-DEF, ZEROX-DEF, INDEX-DTYPE (the midpoints of every row are the arrays find_zerox returns).'
 CHECKS['C01']['technique'] += '; rules borrowed from the property that anchors a function this one depends on (sa/check.py:BORROWED)'
+for _k in ('C11', 'C12', 'C14'):
+    CHECKS[_k]['text'] = CHECKS[_k]['text'] + ' INDEX-AGREE also requires one model object per position (the stored Bycycle is constructed inside the loop nest that stores it).'
+CHECKS['C10']['text'] = CHECKS['C10']['text'] + ' OPTIONS-STABLE covers find_extrema_kwargs, filter_kwargs, burst_kwargs (which carries fs / f_range for the amplitude method) and threshold_kwargs.'
+CHECKS['C13']['text'] = CHECKS['C13']['text'] + ' EMPTY-EPOCH is decided on the label term specialised to an empty table (nrows := 0): no constant-index store may remain.'
+CHECKS['C19']['text'] = CHECKS['C19']['text'] + ' OPTION-REACH places the invalid per-epoch entry last and in the middle of the list.'
 CHECKS['C01']['technique'] += '; version-keyed API lint (np.array copy=False)'
 CHECKS['C09']['technique'] += '; closed effect summary with depth tracking through shallow copies'
 for _k in CHECKS:
